@@ -61,7 +61,8 @@ def gen_mesh(rng, max_cells=8, allow=("line", "tri", "quad", "pixel", "tet", "he
         for j in range(ny):
             for i in range(nx):
                 q = [I(i, j), I(i + 1, j), I(i + 1, j + 1), I(i, j + 1)]
-                ck = cellkind if cellkind != "mixed" else rng.choice(["quad", "tri", "polygon"])
+                # (mixed meshes may hold both members of a compatible pair, QUAD and PIXEL, at once)
+                ck = cellkind if cellkind != "mixed" else rng.choice(["quad", "tri", "polygon", "pixel"])
                 if ck == "quad":
                     add("QUAD", q)
                 elif ck == "pixel":
@@ -79,12 +80,13 @@ def gen_mesh(rng, max_cells=8, allow=("line", "tri", "quad", "pixel", "tet", "he
         nx, ny, nz = rng.randint(1, 2), rng.randint(1, 2), rng.randint(1, 2)
         dim = 3
         pts, I = lattice_points([nx, ny, nz], 3, rng, style)
-        cellkind = rng.choice(["hex", "voxel", "tet"])
+        cellkind0 = rng.choice(["hex", "voxel", "tet", "hexvoxel"])
         for k in range(nz):
             for j in range(ny):
                 for i in range(nx):
                     c = [I(i, j, k), I(i + 1, j, k), I(i + 1, j + 1, k), I(i, j + 1, k),
                          I(i, j, k + 1), I(i + 1, j, k + 1), I(i + 1, j + 1, k + 1), I(i, j + 1, k + 1)]
+                    cellkind = cellkind0 if cellkind0 != "hexvoxel" else rng.choice(["hex", "voxel"])
                     if cellkind == "hex":
                         add("HEXAHEDRON", c)
                     elif cellkind == "voxel":
